@@ -52,24 +52,28 @@ def lean_build(targets, timeout=3000):
         rc, out, err = run(['lake', 'build'] + list(targets), cwd=LEAN, timeout=timeout)
     return rc == 0, out + err
 
+def prop_files(prop):
+    import glob
+    return sorted(glob.glob(os.path.join(LEAN, 'CvxVerif', 'Props', prop + '*.lean')))
+
 def theorem_names(prop):
-    """names of the property theorems: every `theorem Cxx_*` of Props/Cxx.lean (with its namespace)"""
-    src = open(os.path.join(LEAN, 'CvxVerif', 'Props', prop + '.lean')).read()
+    """names of the property theorems: every `theorem Cxx_*` of Props/Cxx*.lean (with its namespace)"""
     names = []
-    ns = []
-    for line in src.split('\n'):
-        m = re.match(r'\s*namespace\s+(\S+)', line)
-        if m: ns.append(m.group(1))
-        m = re.match(r'\s*end\s+(\S+)', line)
-        if m and ns and ns[-1] == m.group(1): ns.pop()
-        m = re.match(r'\s*(?:private\s+)?theorem\s+(%s_\S+)' % prop, line)
-        if m: names.append('.'.join(ns + [m.group(1)]))
+    for f in prop_files(prop):
+        ns = []
+        for line in open(f).read().split('\n'):
+            m = re.match(r'\s*namespace\s+(\S+)', line)
+            if m: ns.append(m.group(1))
+            m = re.match(r'\s*end\s+(\S+)', line)
+            if m and ns and ns[-1] == m.group(1): ns.pop()
+            m = re.match(r'\s*(?:private\s+)?theorem\s+(%s_[A-Za-z0-9_]+)' % prop, line)
+            if m: names.append('.'.join(ns + [m.group(1)]))
     return names
 
 def lean_audit(prop, extra_imports=()):
     """`#print axioms` of every property theorem; returns (ok, {theorem: [axioms]}, problems)"""
     names = theorem_names(prop)
-    src = 'import CvxVerif.Props.%s\n' % prop + ''.join('import %s\n' % i for i in extra_imports)
+    src = ''.join('import CvxVerif.Props.%s\n' % os.path.basename(f)[:-5] for f in prop_files(prop)) + ''.join('import %s\n' % i for i in extra_imports)
     src += ''.join('#print axioms %s\n' % n for n in names)
     d = scratch_dir('cvxaudit_')
     f = os.path.join(d, 'Audit.lean')
@@ -105,7 +109,7 @@ def grep_forbidden(prop_files):
     return hits
 
 def lean_files_of(prop, modules):
-    fs = [os.path.join(LEAN, 'CvxVerif', 'Props', prop + '.lean')]
+    fs = prop_files(prop)
     for m in modules:
         fs.append(os.path.join(LEAN, *m.split('.')) + '.lean')
     return [f for f in fs if os.path.exists(f)]
